@@ -1,3 +1,5 @@
+mod c06;
+mod c07;
 mod c17;
 mod c18;
 mod c19;
@@ -5,6 +7,9 @@ mod c19;
 #[allow(dead_code)]
 mod denote;
 mod procs;
+#[path = "../../etfmc/src/universe.rs"]
+#[allow(dead_code)]
+mod universe;
 mod explore;
 mod world;
 
@@ -27,6 +32,16 @@ fn main() {
         "c18" => {
             let rep = Report::new("C18", "model_checking");
             let cov = c18::run(&rep);
+            rep.finish(cov)
+        }
+        "c07" => {
+            let rep = Report::new("C07", "model_checking");
+            let cov = c07::run(&rep);
+            rep.finish(cov)
+        }
+        "c06" => {
+            let rep = Report::new("C06", "model_checking");
+            let cov = c06::run(&rep);
             rep.finish(cov)
         }
         _ => {
